@@ -129,6 +129,21 @@ func main() {
 	}
 	opts := &runOpts{Tier: *tier, EvidenceDir: *evdir, JSON: *asJSON, Only: *only, NoSelf: *noSelf}
 
+	// Watchdog: an analysis that does not finish is a failed check, not a hung one.
+	if cmd == "check" || cmd == "all" {
+		limit := 15 * time.Minute
+		if *tier == "thorough" {
+			limit = 60 * time.Minute
+		}
+		pid := "?"
+		if len(args) > 0 {
+			pid = args[0]
+		}
+		time.AfterFunc(limit, func() {
+			fmt.Printf("VIOLATION property=%s replay=%s (analyser watchdog: no verdict after %s; fail closed)\n", pid, filepath.Join(verifDir, "analyzer"), limit)
+			os.Exit(1)
+		})
+	}
 	switch cmd {
 	case "check":
 		if len(args) != 1 {
